@@ -95,4 +95,7 @@ open GorumsV.Tie.C11 GorumsV.C11
 #print axioms run_exhausted
 #print axioms run_exhausted_incomplete
 #print axioms run_exhausted_ctx
+#print axioms all_targets_failed
+#print axioms stream_exhausted_iff_all_failed
+#print axioms pinned_double_error_completes
 end Audit
